@@ -162,7 +162,19 @@ pub fn judge_angle(call: usize, x: [f64; 2], l: Option<&mut crate::run::Local>) 
     Verdict::Pass
 }
 
+pub fn hist_judge(c: &crate::hist::HCall, l: Option<&mut crate::run::Local>) -> Verdict {
+    use crate::api::Op;
+    match c.as_op() {
+        Some(Op::to_degrees) => judge_angle(0, c.a, l),
+        Some(Op::to_radians) => judge_angle(1, c.a, l),
+        _ => Verdict::Skip,
+    }
+}
+
 pub fn replay(call: &str, _clause: &str, args: &[u64]) -> Verdict {
+    if call == "hist" {
+        return crate::hist::replay(args, &hist_judge);
+    }
     match call {
         "const" => judge_const(args[0] as usize),
         "assoc" => judge_assoc(),
@@ -269,5 +281,11 @@ pub fn run(r: &mut Runner) {
                 }
             }
         });
+    }
+    {
+        use crate::api::Op;
+        let bases: Vec<[f64; 2]> = vec![[1.0471975511965976, 1.1102230246251565e-16], [45.0, 2f64.powi(-61)], [30.0, 0.0], [90.0, 2f64.powi(-60)], [1e-3, 1e-20], [12345.678, 0.0]];
+        let groups = crate::hist::unary_groups(&[Op::to_degrees, Op::to_radians], &bases, [2.0, 0.0]);
+        crate::hist::explore(r, "histories: to_degrees/to_radians", &groups, 3, &hist_judge, 14u64 << 55);
     }
 }
